@@ -10,7 +10,8 @@ From PyGql Require Import Lang.Parser Lang.Loc Spec.LexSpec Spec.GrammarSpec Spe
   Spec.DocGrammarSpec Proofs.DocGrammarSound Proofs.DocGrammarComplete Proofs.DocEntryProofs
   Spec.LexicalSpec Proofs.LexicalProofs Proofs.AcceptProofs
   Spec.SdlGrammarSpec Proofs.SdlGrammarSound Proofs.SdlGrammarComplete Proofs.SdlLookahead Proofs.SdlEntryProofs
-  Spec.ExecOnlySpec Proofs.ParseOutputWf Proofs.FollowProofs Proofs.StrictAcceptProofs.
+  Spec.ExecOnlySpec Proofs.ParseOutputWf Proofs.FollowProofs Proofs.StrictAcceptProofs
+  Spec.LexErrorSpec Proofs.LexErrorProofs Proofs.LexErrorComplete Proofs.ErrorOrigin.
 
 (* ---- numbers: the automaton of _read_number accepts exactly IntValue /
    FloatValue followed by an admissible character ---- *)
@@ -82,6 +83,50 @@ Proof.
   simpl in H. lia.
 Qed.
 Print Assumptions C01_error_position_refuted.
+
+(* ---- rejections against a specification ----
+   Where a rejection comes from: the parser itself only raises UnexpectedToken
+   and UnexpectedEOF, at offsets inside the text; every other rejection of
+   parse / parse_value / parse_type is the lexer's rejection of the same text,
+   class and offset (all flag triples). *)
+Theorem C01_rejection_origin : forall fl s,
+  (forall k p, parse_document fl s = Rejected k p -> (syntactic k /\ p <= length s) \/ lex s = Rejected k p)
+  /\ (forall k p, parse_value_str fl s = Rejected k p -> (syntactic k /\ p <= length s) \/ lex s = Rejected k p)
+  /\ (forall k p, parse_type_str fl s = Rejected k p -> (syntactic k /\ p <= length s) \/ lex s = Rejected k p).
+Proof. exact rejection_origin. Qed.
+Print Assumptions C01_rejection_origin.
+
+(* The lexer rejects a text with class k at offset p EXACTLY when the
+   declarative table of Spec/LexErrorSpec.v gives (k, p) as the text's first
+   lexical error: the text is cut into tokens of the lexical grammar as far
+   as possible, and class and offset are those the table gives for the lexeme
+   that cannot be completed (bad_dots / bad_string / bad_block / bad_number /
+   invalid or unexpected character). *)
+Theorem C01_lexer_rejection_spec : forall s k p, lex s = Rejected k p <-> lex_error s k p.
+Proof. exact lex_error_iff. Qed.
+Print Assumptions C01_lexer_rejection_spec.
+
+(* the table is functional, and a text has a token sequence or a first
+   lexical error, never both *)
+Theorem C01_lex_error_functional : forall s k p k' p',
+  lex_error s k p -> lex_error s k' p' -> k = k' /\ p = p'.
+Proof. exact lex_error_functional. Qed.
+Print Assumptions C01_lex_error_functional.
+
+Theorem C01_lexes_or_lex_error : forall s,
+  ((exists ts, lexes_slack s ts) \/ (exists k p, lex_error s k p))
+  /\ (forall k p ts, lex_error s k p -> ~ lexes_slack s ts).
+Proof. intros s. split; [apply lexes_or_lex_error|intros k p ts; apply lex_error_not_lexes]. Qed.
+Print Assumptions C01_lexes_or_lex_error.
+
+(* Together: class and offset of every rejection with a class only the lexer
+   raises (InvalidCharacter, UnexpectedCharacter, NonTerminatedString,
+   InvalidEscapeSequence) are specified. *)
+Theorem C01_lexical_rejection_spec : forall fl s k p, lexical k ->
+  (parse_document fl s = Rejected k p \/ parse_value_str fl s = Rejected k p \/ parse_type_str fl s = Rejected k p) ->
+  lex_error s k p.
+Proof. exact lexical_rejection_spec. Qed.
+Print Assumptions C01_lexical_rejection_spec.
 
 (* Rendering (str(e), to_dict()) uses min(position, len(source)): index_to_loc
    then never raises, line and column are at least 1, and the line exists in
